@@ -232,7 +232,7 @@ func checkC01(p *core.Program, r *core.Report) {
 		r.Check(ok && setAllowed[s], "R1", core.FuncName(cs.Caller)+"/SetStatus("+s+")", p.Pos(cs.Pos()), "non-exit status constant",
 			"Run.SetStatus called with an exit status: the run would be completed/failed/expired without exited_on")
 	}
-	r.Require("run_exit_sites", nExit, 6)
+	r.Require("run_exit_sites", nExit, 3)
 	r.Require("run_setstatus_sites", nSet, 2)
 	for _, fname := range []string{"status", "exitedOn"} {
 		fv := p.FieldOf("flows/runs", "run", fname)
@@ -706,7 +706,7 @@ func c01R4(p *core.Program, r *core.Report, e *engineFns) {
 			sites = append(sites, pairSite{cs.Caller, cs.Pos(), cc.Args[2], cc.Args[4], "pickNodeExit"})
 		}
 	}
-	r.Require("run_step_pair_sites", len(sites), 8)
+	r.Require("run_step_pair_sites", len(sites), 4)
 	per := map[string]int{}
 	for _, s := range sites {
 		k := core.FuncName(s.fn) + "/" + s.what
@@ -1080,7 +1080,7 @@ func c01R8(p *core.Program, r *core.Report, e *engineFns) {
 		}
 	}
 	r.Count("terminal_session_status_stores", n)
-	r.Require("terminal_session_status_stores", n, 3)
+	r.Require("terminal_session_status_stores", n, 2)
 }
 
 // ---------------------------------------------------------------------------------------------- R9
